@@ -22,6 +22,7 @@ import (
 	"github.com/rulego/streamsql/utils/verifhook"
 	"log"
 	"reflect"
+	"sort"
 	"sync"
 	"sync/atomic"
 	"time"
@@ -61,6 +62,10 @@ type SlidingWindow struct {
 	slide time.Duration
 	// mu protects concurrent data access
 	mu sync.RWMutex
+	// deliverMu orders the hand-over of results: taken before mu is released for the hand-over of a
+	// window's first delivery or of a late update and held until it is done, so results leave in the
+	// order they were built. Lock order: mu, then deliverMu.
+	deliverMu sync.Mutex
 	// data stores window data
 	data []types.Row
 	// outputChan is the channel for outputting window data
@@ -253,25 +258,19 @@ func (sw *SlidingWindow) Add(data any) {
 	// landing in a triggered window still open for late updates. Drop the rest so
 	// sw.data cannot grow without bound under sustained out-of-order input.
 	if timeChar == types.EventTime && sw.watermark != nil && sw.watermark.IsEventTimeLate(eventTime) {
-		switch {
-		case sw.initialized && sw.currentSlot != nil && sw.currentSlot.Contains(eventTime):
-			// watermark advanced past the window start but the window has not
-			// triggered yet; the row triggers normally, keep it.
-		case sw.config.AllowedLateness > 0:
-			placed := false
-			for _, info := range sw.triggeredWindows {
-				if info.slot.Contains(eventTime) {
-					sw.handleLateData(eventTime, sw.config.AllowedLateness)
-					placed = true
-					break
-				}
-			}
-			if !placed {
-				// beyond allowed lateness with no open triggered window: drop
-				sw.dropLastRow()
-			}
-		default:
-			// AllowedLateness == 0 (default) and not in the current window: drop
+		// watermark advanced past the window start but the window has not triggered
+		// yet: the row triggers normally with it, keep it.
+		inCurrent := sw.initialized && sw.currentSlot != nil && sw.currentSlot.Contains(eventTime)
+		// Overlapping windows: the row may also lie in windows that have already fired and
+		// are still open for late updates - every one of them is delivered again, whether
+		// or not the row lies in the current window as well.
+		placed := false
+		if sw.config.AllowedLateness > 0 {
+			placed = sw.handleLateData(eventTime, sw.config.AllowedLateness)
+		}
+		if !inCurrent && !placed {
+			// not in the current window and no open triggered window (or
+			// AllowedLateness == 0, the default): drop
 			sw.dropLastRow()
 		}
 	}
@@ -529,11 +528,9 @@ func (sw *SlidingWindow) checkAndTriggerWindows(watermarkTime time.Time) {
 			debugLogSliding("checkAndTriggerWindows: triggering window [%v, %v) with %d data items",
 				windowStart.UnixMilli(), windowEnd.UnixMilli(), dataInWindow)
 
-			sw.triggerSpecificWindowLocked(slotToTrigger)
-
-			debugLogSliding("checkAndTriggerWindows: window triggered successfully")
-
-			// If allowedLateness > 0, keep window open for late data
+			// If allowedLateness > 0, keep window open for late data. It is registered before
+			// triggerSpecificWindowLocked releases the lock for the hand-over: a late row that
+			// arrives meanwhile finds the window (it is no longer the current one) and updates it.
 			if allowedLateness > 0 {
 				windowKey := sw.getWindowKey(*slotToTrigger.End)
 				closeTime := slotToTrigger.End.Add(allowedLateness)
@@ -545,6 +542,10 @@ func (sw *SlidingWindow) checkAndTriggerWindows(watermarkTime time.Time) {
 				debugLogSliding("checkAndTriggerWindows: window [%v, %v) kept open for late data until %v",
 					windowStart.UnixMilli(), windowEnd.UnixMilli(), closeTime.UnixMilli())
 			}
+
+			sw.triggerSpecificWindowLocked(slotToTrigger)
+
+			debugLogSliding("checkAndTriggerWindows: window triggered successfully")
 		} else {
 			debugLogSliding("checkAndTriggerWindows: window [%v, %v) has no data, skipping trigger",
 				windowStart.UnixMilli(), windowEnd.UnixMilli())
@@ -604,6 +605,7 @@ func (sw *SlidingWindow) triggerSpecificWindowLocked(slot *types.TimeSlot) {
 	callback := sw.callback
 
 	// Release lock before calling callback and sending to channel to avoid blocking
+	sw.deliverMu.Lock()
 	sw.mu.Unlock()
 	verifhook.Yield("sliding.trigger.unlocked")
 
@@ -612,6 +614,7 @@ func (sw *SlidingWindow) triggerSpecificWindowLocked(slot *types.TimeSlot) {
 	}
 
 	sw.sendResult(resultData)
+	sw.deliverMu.Unlock()
 	verifhook.Yield("sliding.trigger.relock")
 
 	// Re-acquire lock to update statistics
@@ -864,16 +867,22 @@ func (sw *SlidingWindow) getWindowKey(endTime time.Time) string {
 }
 
 // handleLateData handles late data that arrives within allowedLateness
-func (sw *SlidingWindow) handleLateData(eventTime time.Time, allowedLateness time.Duration) {
-	// Find which triggered window this late data belongs to
+func (sw *SlidingWindow) handleLateData(eventTime time.Time, allowedLateness time.Duration) bool {
+	// Find the triggered windows this late data belongs to: with slide < size there can be
+	// several. They are delivered again in the order of their ends.
+	var slots []*types.TimeSlot
 	for _, info := range sw.triggeredWindows {
 		if info.slot.Contains(eventTime) {
-			// This late data belongs to a triggered window that's still open
-			// Trigger window again with updated data (late update)
-			sw.triggerLateUpdateLocked(info.slot)
-			return
+			slots = append(slots, info.slot)
 		}
 	}
+	sort.Slice(slots, func(i, j int) bool { return slots[i].End.Before(*slots[j].End) })
+	for _, slot := range slots {
+		// This late data belongs to a triggered window that's still open
+		// Trigger window again with updated data (late update)
+		sw.triggerLateUpdateLocked(slot)
+	}
+	return len(slots) > 0
 }
 
 // triggerLateUpdateLocked triggers a late update for a window (must be called with lock held)
@@ -946,7 +955,9 @@ func (sw *SlidingWindow) triggerLateUpdateLocked(slot *types.TimeSlot) {
 	// Get callback reference before releasing lock
 	callback := sw.callback
 
-	// Release lock before calling callback and sending to channel to avoid blocking
+	// Release lock before calling callback and sending to channel to avoid blocking;
+	// wait for a hand-over in progress (the window's first delivery) to finish first
+	sw.deliverMu.Lock()
 	sw.mu.Unlock()
 
 	if callback != nil {
@@ -963,6 +974,7 @@ func (sw *SlidingWindow) triggerLateUpdateLocked(slot *types.TimeSlot) {
 		// Channel full, drop result
 		sent = false
 	}
+	sw.deliverMu.Unlock()
 
 	// Re-acquire lock to update statistics
 	sw.mu.Lock()
